@@ -65,37 +65,37 @@ def movePos (kids : Items) (cur pos : Nat) : Items :=
     | none => kids
 
 /-- `move_element_here[_at]` within one model -/
-def opMove (w : World) (p x : Nat) (pos? : Option Nat) : World × String :=
-  if p = x then (w, "err")
+def opMove (w : World) (p x : Nat) (pos? : Option Nat) : World × Ans :=
+  if p = x then (w, .err)
   else match locate w x, locate w p with
   | some (kx, cx), some (kp, cp) =>
     let m := w.models[kp]!
     let mx := w.models[kx]!
     match minVersion V mx cx, minVersion V m cp with
     | some vx, some ver =>
-      if vx ≠ ver then (w, "err")
+      if vx ≠ ver then (w, .err)
       else
         let (ph, pkids) := lastOf cp
         let (xh, xkids) := lastOf cx
         match insertRange S ph pkids xh.name ver with
-        | none => (w, "err")
+        | none => (w, .err)
         | some (lo, hi) =>
           let pos := pos?.getD hi
-          if ¬ (lo ≤ pos ∧ pos ≤ hi) then (w, "err")
-          else if kx ≠ kp then (w, "unsupported")     -- move between models: not in this protocol version
+          if ¬ (lo ≤ pos ∧ pos ≤ hi) then (w, .err)
+          else if kx ≠ kp then (w, .unsupported)     -- move between models: not in this protocol version
           else match cx.dropLast.getLast? with
-            | none => (w, "err")        -- the root element has no parent element
+            | none => (w, .err)        -- the root element has no parent element
             | some (sph, spk) =>
               if sph.id = p then
                 match pos? with
-                | none => (w, "ok")
+                | none => (w, .ok "")
                 | some q =>
                   if q < pkids.length then
                     match pkids.childPos x 0 with
-                    | some cur => (setModel w kp (m.setRoot (m.rootItems.modify p fun h0 k0 => (h0, movePos k0 cur q))), "ok")
-                    | none => (w, "err")
-                  else (w, "err")
-              else if (cp.any fun (h, _) => h.id = x) then (w, "err")      -- destination lies below the moved element
+                    | some cur => (setModel w kp (m.setRoot (m.rootItems.modify p fun h0 k0 => (h0, movePos k0 cur q))), .ok "")
+                    | none => (w, .err)
+                  else (w, .err)
+              else if (cp.any fun (h, _) => h.id = x) then (w, .err)      -- destination lies below the moved element
               else
                 let srcPrefix := pathOfChain S cx
                 let destPrefix := pathOfChain S cp
@@ -116,7 +116,7 @@ def opMove (w : World) (p x : Nat) (pos? : Option Nat) : World × String :=
                   else (xkids, destPrefix, false)
                 if nameFail then
                   -- Rust: make_unique_item_name fails after the element was already unlinked
-                  (setModel w kp (m.setRoot root1), "err")
+                  (setModel w kp (m.setRoot root1), .err)
                 else
                   let idx1 :=
                     if isIdentifiable S xh xkids then idxFix m.index srcPrefix destPath
@@ -133,9 +133,9 @@ def opMove (w : World) (p x : Nat) (pos? : Option Nat) : World × String :=
                           else rs1 ++ [(refstr, lst)]
                         (rs2, setRefTexts acc.2 lst refstr)
                       else acc) (m.refs, root2)
-                  (setModel w kp { m.setRoot root3 with index := idx1, refs := rs' }, "ok")
-    | _, _ => (w, "err")
-  | _, _ => (w, "err")
+                  (setModel w kp { m.setRoot root3 with index := idx1, refs := rs' }, .ok "")
+    | _, _ => (w, .err)
+  | _, _ => (w, .err)
 
 /-- `check_version_compatibility` of a value -/
 def valueCompat (v : CDv) (sp : CSpec) (ver : Nat) : Bool :=
@@ -201,27 +201,27 @@ def registerCopy (fuel : Nat) (h : Hdr) (kids : Items) (pre : List Bytes) (idx :
     kids.childElems.foldl (fun acc ch => registerCopy fuel ch.1 ch.2 pre' acc.1 acc.2) (idx1, rs1)
 
 /-- `create_copied_sub_element[_at]` -/
-def opCopy (w : World) (p x : Nat) (pos? : Option Nat) : World × String :=
-  if p = x then (w, "err")
+def opCopy (w : World) (p x : Nat) (pos? : Option Nat) : World × Ans :=
+  if p = x then (w, .err)
   else match locate w p with
-  | none => (w, "err")
+  | none => (w, .err)
   | some (k, cp) =>
     let m := w.models[k]!
     match minVersion V m cp with
-    | none => (w, "err")
+    | none => (w, .err)
     | some ver =>
       match hdrOf w x with
-      | none => (w, "err")
+      | none => (w, .err)
       | some (xh, xkids) =>
         let (ph, pkids) := lastOf cp
         match insertRange S ph pkids xh.name ver with
-        | none => (w, "err")
+        | none => (w, .err)
         | some (lo, hi) =>
           let pos := pos?.getD hi
-          if ¬ (lo ≤ pos ∧ pos ≤ hi) then (w, "err")
-          else if (cp.dropLast.any fun (h, _) => h.id = x) then (w, "err")
+          if ¬ (lo ≤ pos ∧ pos ≤ hi) then (w, .err)
+          else if (cp.dropLast.any fun (h, _) => h.id = x) then (w, .err)
           else match deepCopy S (xkids.size + 2) xh xkids ver (.elem p) w.nextId with
-            | none => (w, "err")
+            | none => (w, .err)
             | some (nh, nk, nextId') =>
               let path := pathOfChain S cp
               let (nk1, fail) :=
@@ -232,13 +232,13 @@ def opCopy (w : World) (p x : Nat) (pos? : Option Nat) : World × String :=
                     ((if cnt > 0 then setShortName nk nm else nk), false)
                   | none => (nk, true)
                 else (nk, false)
-              if fail then (w, "err")
+              if fail then (w, .err)
               else
                 let (idx', rs') := registerCopy S (nk1.size + 2) nh nk1 (namesOfChain S cp) m.index m.refs
                 let root' := m.rootItems.modify p fun h0 k0 => (h0, k0.insertAt (fun r => .elem nh nk1 r) pos)
                 let newIds := (Items.elem nh nk1 .nil).ids
                 ({ setModel w k { m.setRoot root' with index := idx', refs := rs' } with nextId := nextId' },
-                  "ok " ++ " ".intercalate (newIds.map fun i => s!"e{i}"))
+                  .ok (" ".intercalate (newIds.map fun i => s!"e{i}")))
 
 end
 end AV.W
